@@ -1,0 +1,29 @@
+//go:build verif
+
+package v1
+
+// Contracts for the deductive checks in /verif (read by /verif/govc; comment-only, no code).
+
+//@ import proxy github.com/tendermint/tendermint/proxy
+//@ import mempool github.com/tendermint/tendermint/mempool
+
+// ---- C05: the priority mempool's side of "no check in flight while consensus holds the mempool lock" ----
+//@ extern proxy.AppConnMempool.CheckTxSync
+//@   assigns nothing
+//@ extern proxy.AppConnMempool.Error
+//@   assigns nothing
+//@ extern mempool.TxCache.Push
+//@   assigns nothing
+//@ extern mempool.TxCache.Remove
+//@   assigns nothing
+//@ extern TxMempool.preCheck
+//@   assigns nothing
+//@ func TxMempool.addNewTransaction
+//@   trusted
+//@   assigns heap
+//@ func TxMempool.Lock
+//@   ensures excl: holds(txmp.mtx)
+// KNOWN FINDING F-C05-1: the application check runs after the read lock has been released.
+//@ func TxMempool.CheckTx
+//@   requires free: unlocked(txmp.mtx)
+//@   atcall AppConnMempool.CheckTxSync guarded: rholds(txmp.mtx)
